@@ -142,8 +142,8 @@ def build(selected_tags=None, extra_files=None, verbose=False, transform=None):
             # non-inline module is relative to the directory of the current file.
             tail += (b"" if tag.startswith("native") else b"#[cfg(kani)]\n")
             tail += (b"#[allow(warnings, clippy::all, clippy::pedantic, clippy::nursery, "
-                     b"clippy::restriction, unused, unsafe_code, missing_docs)]\n#[path = \"%s\"]\nmod %s;\n"
-                     % (fname.encode(), ident.encode()))
+                     b"clippy::restriction, unused, unsafe_code, missing_docs)]\n#[path = \"%s\"]\n%smod %s;\n"
+                     % (fname.encode(), b"pub(crate) " if tag.startswith("pub") else b"", ident.encode()))
             _write_if_changed(os.path.join(OVERLAY, d, fname), data)
             wanted.add(os.path.normpath(os.path.join(OVERLAY, d, fname)))
         _write_if_changed(os.path.join(OVERLAY, target), src + tail)
